@@ -199,7 +199,7 @@ fn gen_for_raw(prop: &str, seed: u64) -> Scenario {
         }
     }
     #[cfg(feature = "sim")]
-    if prop == "C15" || (matches!(prop, "C01" | "C02" | "C03" | "C11" | "C12" | "C13") && rng.chance(1, 7)) {
+    if prop == "C15" || (matches!(prop, "C01" | "C02" | "C03" | "C04" | "C11" | "C12" | "C13") && rng.chance(1, 7)) {
         crate::afamily::asyncify(&mut sc, &mut rng);
         return sc;
     }
@@ -299,18 +299,18 @@ fn random_strat(rng: &mut Rng, k: u64) -> StratSpec {
 }
 
 /// Stages with at least two groups (top level or inside a hand-written-controller batch):
-/// (parent, heads of the groups)
-fn wide_stages(layout: &crate::build::Layout) -> Vec<(Option<usize>, Vec<usize>)> {
+/// (parent, the groups)
+fn wide_stages(layout: &crate::build::Layout) -> Vec<(Option<usize>, Vec<Vec<usize>>)> {
     let mut v = Vec::new();
     for st in &layout.top {
         if st.len() >= 2 && st.iter().all(|g| !g.is_empty()) {
-            v.push((None, st.iter().map(|g| g[0]).collect()));
+            v.push((None, st.clone()));
         }
     }
     for (p, l) in &layout.inner {
         for st in l {
             if st.len() >= 2 && st.iter().all(|g| !g.is_empty()) {
-                v.push((Some(*p), st.iter().map(|g| g[0]).collect()));
+                v.push((Some(*p), st.clone()));
             }
         }
     }
@@ -378,8 +378,9 @@ pub fn plan_runs(prop: &str, sc: &Scenario, infos: &[SysInfo], layout: &crate::b
         "C11" => {
             // rendezvous of all group heads of one wide stage; the pool has exactly as many
             // workers as the stage is wide (or a few more)
-            for (parent, heads) in wide_stages(layout).iter() {
-                let w = heads.len();
+            for (parent, groups) in wide_stages(layout).iter() {
+                let w = groups.len();
+                let heads: Vec<usize> = groups.iter().map(|g| g[0]).collect();
                 let mut s = sc.clone();
                 if !s.asyncd && !s.calls.iter().any(|c| matches!(c, Call::Dispatch | Call::DispatchPar)) {
                     s.calls = vec![Call::Dispatch];
@@ -405,12 +406,32 @@ pub fn plan_runs(prop: &str, sc: &Scenario, infos: &[SysInfo], layout: &crate::b
                         continue;
                     }
                 }
+                // who meets: the heads of all groups - or, one time in three, one member (at any
+                // position) of each of two or more groups; then a system of a group that does not
+                // take part may also panic during that dispatch: the others still have to meet
+                let mut members = heads.clone();
+                let mut panics: Option<(usize, FaultKind)> = None;
+                if rng.chance(1, 3) {
+                    let mut gi: Vec<usize> = (0..w).collect();
+                    rng.shuffle(&mut gi);
+                    let m = 2 + rng.below((w - 1) as u64) as usize;
+                    members = gi[..m].iter().map(|&g| *rng.pick(&groups[g])).collect();
+                    members.sort();
+                    if m < w && !s.asyncd && rng.chance(1, 2) {
+                        let kind = *rng.pick(&[FaultKind::PanicBefore, FaultKind::PanicMid, FaultKind::PanicAfter]);
+                        panics = Some((*rng.pick(&groups[gi[m]]), kind));
+                    }
+                }
                 let mut g = 0u64;
                 for &ci in &calls {
-                    for &h in heads {
+                    for &h in &members {
                         s.faults.push(Fault { sid: h, call: ci, kind: FaultKind::Rendezvous, arg: g });
                     }
                     g += 1;
+                }
+                if let Some((ps, kind)) = panics {
+                    // in the first call only: the following calls show that the meeting still works
+                    s.faults.push(Fault { sid: ps, call: calls[0], kind, arg: 0 });
                 }
                 let extra = if rng.chance(1, 2) { 0 } else { rng.below(3) as usize };
                 if rng.chance(1, 2) {
@@ -713,7 +734,7 @@ pub fn describe_rendezvous_failure(sc: &Scenario, outcome: &str) -> String {
         "top-level stage"
     };
     format!(
-        "the {} group heads of a {} (batch depth {}) waited for each other and the dispatch deadlocked; supplied pool: {:?} workers, default pool size: {}, dispatch called from a foreign pool worker: {}; {}",
+        "{} systems in different groups of a {} (batch depth {}) waited for each other inside run and the dispatch deadlocked; supplied pool: {:?} workers, default pool size: {}, dispatch called from a foreign pool worker: {}; {}",
         heads.len(),
         shape,
         depth,
@@ -1004,6 +1025,9 @@ pub fn explore(prop: &str, seed: u64, thorough: bool, st: &mut Stats) -> Vec<Rep
         }
         for (k, f) in &o.fired {
             note_fault(st, *k, *f);
+        }
+        if o.fired.iter().filter(|(k, f)| *f && matches!(k, FaultKind::PanicBefore | FaultKind::PanicMid | FaultKind::PanicAfter)).count() >= 2 {
+            Stats::bump(&mut st.probes, "two_panics_delivered_in_one_dispatch", 1);
         }
         if let StratSpec::Hold(_) = p.strat {
             Stats::bump(&mut st.faults, "hold_stall", 1);
